@@ -71,8 +71,8 @@ Idle == [kind |-> "none", pc |-> "idle", pid |-> 0, b |-> 0,
          done |-> FALSE, exc |-> "",
          queue |-> <<>>, outst |-> <<>>, nrem |-> <<>>, depth |-> 0]
 
-RowOk(j, b) == <<j, ToString(S.rc[j]), "finished", "0", "0", ToString(b)>>
-RowCanceled(j, id) == <<j, "1", "canceled", "0", "0", id>>
+RowOk(j, b) == <<j, ToString(S.rc[j]), "finished", "0.0", "0.0", ToString(b)>>
+RowCanceled(j, id) == <<j, "1", "canceled", "0.0", "0.0", IF id = "None" THEN "" ELSE id>>
 RowNames(rs) == {rs[k][1] : k \in 1..Len(rs)}
 RECURSIVE CatFiles(_)
 CatFiles(bs) == IF bs = {} THEN <<>> ELSE LET b == CHOOSE x \in bs : \A y \in bs : x <= y IN nodeFile[b] \o CatFiles(bs \ {b})
@@ -97,8 +97,9 @@ EvRows(nf, pr) ==
    node |-> LET RECURSIVE L(_) L(bs) == IF bs = {} THEN <<>> ELSE
                    LET b == CHOOSE x \in bs : \A y \in bs : x <= y IN <<<<b, nf[b]>>>> \o L(bs \ {b})
             IN L({b \in B : nf[b] # <<>>})]
-EvProc(pid, k, nested, b) == [e |-> "proc", pid |-> pid, k |-> k, nested |-> nested, b |-> b]
-EvExit(pid, k, code, exc) == [e |-> "exit", pid |-> pid, k |-> k, code |-> code, exc |-> exc]
+EvProc(pid, k, nested, b) == [e |-> "proc", pid |-> pid, k |-> k, nested |-> nested, b |-> b,
+                              fl |-> [failed |-> TRUE, missing |-> TRUE, successful |-> FALSE]]
+EvExit(pid, k, code, exc) == [e |-> "exit", pid |-> pid, k |-> k, code |-> code, exc |-> exc, clock |-> FALSE]
 EvPromote(pid, host, ok, before, after, create) ==
   [e |-> "promote", pid |-> pid, host |-> host, ok |-> ok, exc |-> "", before |-> before, after |-> after, create |-> create]
 
